@@ -52,6 +52,18 @@ func c08seed(kind, seedText string, texts []string) *models.Item {
 		if err := seed.AddChild(child, models.ItemGotRedirected); err != nil {
 			panic(err)
 		}
+	case "redirects": // several assets of one page answered with a redirect: their targets are checked together, as seeds
+		for i, t := range texts {
+			au := c08url(fmt.Sprintf("%s-via%d", seedText, i), nil)
+			asset := models.NewItem(fmt.Sprintf("a-%d-%d", id, i), au, "")
+			if err := seed.AddChild(asset, models.ItemGotChildren); err != nil {
+				panic(err)
+			}
+			target := models.NewItem(fmt.Sprintf("t-%d-%d", id, i), c08url(t, au), "")
+			if err := asset.AddChild(target, models.ItemGotRedirected); err != nil {
+				panic(err)
+			}
+		}
 	}
 	return seed
 }
@@ -133,7 +145,13 @@ func c08(args []string) error {
 	// ---- A. sequential histories
 	for i := 0; i < nseq; i++ {
 		ns := fmt.Sprintf("s%d.", i/25) // a fresh namespace every 25 calls, overlaps inside it
-		switch r.Intn(3) {
+		switch r.Intn(4) {
+		case 3:
+			var ts []string
+			for k := 0; k < 2+r.Intn(3); k++ {
+				ts = append(ts, spell(mk(ns)))
+			}
+			check(c08seed("redirects", mk(ns), ts), "seq")
 		case 0:
 			check(c08seed("seed", spell(mk(ns)), nil), "seq")
 		case 1:
